@@ -122,3 +122,6 @@ def strip_body(body):
             continue
         out.append(s)
     return out
+RULES.append("isinstance(v, C) on an object held as a value is an uninterpreted predicate of the object's identity (pinned for objects the path constructed); "
+             "an object constructed by the function is assumed different from every value held by the entry state; "
+             "contracts that declare lemmas=['append_nth'] get the (true) fact 'xs.append(x) keeps xs[i] for i < len(xs) and puts x at len(xs)' stated explicitly")
